@@ -16,7 +16,7 @@ ASSUMPTIONS = ["tolerance 1e-12 where a mean or a polyline length (sqrt) is take
 TESTED_NOT_PROVED = ["the polyline length as divisor (sqrt) and PIL's pixel access are evaluated by the oracle; linearity / homogeneity in the image and "
                      "the uniform-image clause are proved for the model (C17_integrated_scale/_add, C17_non_integrated_scale/_uniform) and re-checked "
                      "on the implementation by the oracle"]
-IMPORTS = "From Forsys Require Import Model.CaseUtil Model.Myosin.\n"
+IMPORTS = "From Forsys Require Import Model.CaseUtil Model.Myosin Model.Band.\n"
 
 
 def band_pixels(be, layers, rescale, offset):
@@ -131,6 +131,18 @@ def check_case(res, fr, arr, mode, layers, integrate, normalize, rescale, offset
                 # the band handed to the model with duplicates (every pixel twice): the model must sum it once
                 band = "[" + "; ".join(f"({x}, {y})" for x, y in list(pix) + list(pix)) + "]"
                 exprs.append((imgf + f"Qle_bool (Qabs (integrated img {band} {C.qlit(length)} - {C.qlit(r_)})) (1 # 1000000000)", replay))
+                # the band itself: Model/Band.v (walk along the axis of larger extent, numpy's binary64 interpolation, truncation) on the
+                # ceiled vertices, against the set of pixels get_interpolation returns
+                try:
+                    gset, _ = impl.fs.myosin.get_interpolation(be, layers, **kw)
+                except Exception:  # noqa  (the judged call above reports it)
+                    gset = None
+                if gset is not None and len(gset) <= 1500:
+                    vs = [(math.ceil(x * rescale[0] + offset[0]), math.ceil(y * rescale[1] + offset[1])) for x, y in zip(be.xs, be.ys)]
+                    exprs.append((f"pixset_eqb (band_of {layers} [" + "; ".join(f"({C.zlit(a_)}, {C.zlit(b_)})" for a_, b_ in vs) + "]) [" +
+                                  "; ".join(f"({C.zlit(int(a_))}, {C.zlit(int(b_))})" for a_, b_ in sorted((int(a_), int(b_)) for a_, b_ in gset)) + "]",
+                                  dict(replay, what="band")))
+                    res.count("band correspondence (Model/Band.v)")
             elif all(px >= 0 and py >= 0 for px, py in [(v.x * rescale[0] + offset[0] - layers, v.y * rescale[1] + offset[1] - layers) for v in be.vertices]):
                 pl = "[" + "; ".join(f"({int(v.x * rescale[0] + offset[0])}, {int(v.y * rescale[1] + offset[1])})" for v in be.vertices) + "]"
                 exprs.append((imgf + f"Qle_bool (Qabs (non_integrated img {layers} {pl} - {C.qlit(r_)})) (1 # 1000000000)", replay))
@@ -174,7 +186,8 @@ def run(res, tier, seed):
     for (e, rp), b in zip(exprs, bools):
         res.traces += 1
         if b is not True:
-            res.fail("correspondence", "model != implementation (interface intensity)" if b is False else "case did not evaluate",
+            res.fail("correspondence", ("model != implementation (band of pixels, Model/Band.v vs myosin.get_interpolation)" if rp.get("what") == "band" else
+                                        "model != implementation (interface intensity)") if b is False else "case did not evaluate",
                      {"correspondence": "Model/Myosin.v vs myosin.get_intensities", "case": {k: rp[k] for k in ("label", "layers", "integrate", "normalize", "rescale", "offset")}})
 
 
